@@ -42,6 +42,25 @@ def framesOfMethod (m : Method) (baseFirst n : Nat) (breaks : List Bool) : List 
 def runMethod (solve : Frame → Data → Data) (un : List Nat) (method : String) (baseFirst n : Nat) (main : Data) : Option Data :=
   (resolveMethod method).map (fun m => runFrames solve un (framesOfMethod m baseFirst n (breakPoints main un baseFirst n)) main)
 
+/-! ## solver settings of one call: `{"norm_order": inf} | (solver_settings or {})` in `simulate_frame` -/
+
+/-- a settings dict as an association list (values kept as text: `inf`, `1e-12`, `60` …) -/
+abbrev Settings := List (String × String)
+
+def Settings.lookup (s : Settings) (k : String) : Option String := (s.find? (fun p => p.1 == k)).map (·.2)
+
+/-- Python's `defaults | custom`: keys of `defaults` in their order (value from `custom` if present), then the new keys of `custom` -/
+def mergeSettings (defaults custom : Settings) : Settings :=
+  defaults.map (fun (k, v) => (k, (custom.lookup k).getD v)) ++ custom.filter (fun (k, _) => (defaults.lookup k).isNone)
+
+def defaultSolverSettings : Settings := [("norm_order", "inf")]
+
+/-- the settings handed to the solver by one call: a function of THAT call's `solver_settings` alone -/
+def effectiveSettings (custom : Option Settings) : Settings := mergeSettings defaultSolverSettings (custom.getD [])
+
+/-- a history of calls: what each hands to the solver -/
+def settingsHistory (calls : List (Option Settings)) : List Settings := calls.map effectiveSettings
+
 /-! ## variants: `exhaust_then_last` and the zip of `Inlay.simulate` -/
 
 /-- the `k`-th item produced by `exhaust_then_last(own)`: the own items, then the last one for ever (`None` if there is none) -/
